@@ -18,23 +18,33 @@ GEN_UNITS = []
 COQ_TARGETS = ["Props/C16.vo", "Model/C16Harness.vo", "Model/C16Lines.vo", "Model/Harness.vo"]
 THEOREM_FILES = ["Props/C16.v"]
 COQ_IMPORTS = ("From Coq Require Import String.\nFrom Coq Require Import List ZArith Bool.\n"
-               "From PV Require Import Base.Index Np.Array Model.Sparse Model.Repr Model.Harness Model.C16IO Model.C16Harness.\n")
-RULE = ("malformed stream (import side): valid files from an independent pure-Python writer, mutated 31 ways (wrong type word, "
-        "truncation, extra / missing tokens on header and entry lines, one-subscript entry, index_base too large / too small, "
-        "out-of-range subscript, values re-flowed over lines, blank lines, word among values, float subscript, trailing junk, "
-        "nnz / rank / column mismatches, dropped or replaced 'matrix' line, negative size, empty file); non-default fmt_data / "
-        "fmt_weights for all kinds; "
-        "objects of the four kinds (np.ndarray as 2-way matrix and as 1-/3-/4-way array) with seeded random shapes (orders 1-5, singleton modes, 1-way; ranks 1-5, non-square "
-        "factors; C-, F- and non-contiguous matrices; sparse: empty/one/some/full, stored orders sorted/reversed/random, "
-        "index bases -3..10); values = finite doubles over the whole exponent range (uniform bit patterns, subnormals, "
-        "+-max, +-min normal, powers of two +-1 ulp, 17-significant-digit-critical constants, +-0), carried as 64-bit "
-        "patterns; non-trivial = more than one value and not all values equal")
+               "From PV Require Import Base.Index Np.Array Model.Sparse Model.Repr Model.Harness Model.C16IO Model.C16Big Model.C16Text Model.C16Harness.\n")
+RULE = ("objects of the four kinds (np.ndarray as 2-way matrix and as 1-/3-/4-way array) with seeded random shapes (orders 1-5, singleton "
+        "modes, 1-way, ZERO sizes; ranks 1-5, non-square factors; sparse: empty/one/some/full, stored orders sorted/reversed/random, "
+        "index bases -3..10); values = finite doubles over the whole exponent range (uniform bit patterns, subnormals, +-max, "
+        "+-min normal, powers of two +-1 ulp, 17-significant-digit-critical constants, +-0), carried as 64-bit patterns; "
+        "MEMORY LAYOUTS AND HISTORIES: C-ordered / strided / negative-stride arrays assigned to T.data, K.factor_matrices[n], "
+        "K.weights, S.subs, S.vals, copy=False constructors, objects left behind by normalize('all' | k | sort), redistribute, "
+        "arrange, permute, S - S (computed empty), S * 2 — the reference is the object read entry by entry just before export, and "
+        "export must leave it unchanged; sparse tensors with explicitly STORED +0.0 / -0.0 (plain constructor, in-place edit of "
+        "vals, all entries zero); sparse tensors with LONG modes (1e9 .. 2^63-1) and subscripts next to 2^53 and to the ends of the "
+        "mode (op sptensor_big, Z-subscript model); non-default fmt_data / fmt_weights for all kinds; malformed stream (import "
+        "side): valid files from an independent pure-Python writer, mutated 33 ways (wrong type word, truncation, extra / missing "
+        "tokens on header and entry lines, one-subscript entry, index_base too large / too small, out-of-range subscript, values "
+        "re-flowed over lines, blank lines, word among values, float subscript, trailing junk, nnz / rank / column mismatches, "
+        "dropped or replaced 'matrix' line, negative size, zero size (with and without a matching body), empty file); WHITE SPACE "
+        "(op wsfile, character-level model): valid files re-written with blanks before / after the tokens of a line, CR LF line "
+        "ends, runs of blanks between tokens on header / entry lines and among values, white-space-only lines, no final line "
+        "break; non-trivial = more than one value and not all values equal")
 CORRESPONDENCE_ONLY = [
-    "export_data with non-default fmt_data / fmt_weights: proved is only that the layout does not depend on the format "
-    "(C16_format_layout) and that the round trip holds for every format with parse(print v) = v (the theorems are parametric in "
-    "print); that a coarser format gives back float(fmt % v) for every value is compared on real files",
-    "tokenisation of a file into lines of words / integer texts / number texts (Python str.split) and white space other than "
-    "single blanks and newlines",
+    "the number text conversion itself (libc printf / strtod behind numpy tofile / fromfile and float()): that parse(print v) = v "
+    "for '%.16e' and that parse(print_fmt v) = float(fmt % v) for a coarser fmt_data / fmt_weights is compared bit-for-bit on "
+    "real files; everything else about non-default formats is proved (C16_roundtrip_any_format: what is read back is the object "
+    "with every value replaced by parse(print_fmt v))",
+    "classification of a white-space-free piece of a file as word / integer text / number text (what int(), np.int64() and "
+    "float() accept: regular expressions in the harness); tabs, VT, FF and lone-CR line ends are outside the character-level "
+    "model (observed: a tab glues two pieces on header / entry lines and separates values; lone CRs make numpy raise "
+    "OverflowError on dense and Kruskal files)",
 ]
 ASSUMPTIONS = [
     "parse (print v) = v for every finite double v, where print is numpy tofile with format '%.16e' (libc printf: 1 + 16 = 17 "
@@ -42,11 +52,14 @@ ASSUMPTIONS = [
     "theorems. 17 significant digits suffice for binary64 (17 >= ceil(53*log10(2)) + 1: two distinct doubles never share a correctly "
     "rounded 17-digit decimal, so a correctly rounded parse returns the double printed); 16 digits ('%.15e') do not. Correct rounding "
     "of libc's printf/strtod is trusted and TESTED bit-for-bit on every double written by the correspondence stream (count in "
-    "coverage.explanation); the seeded '%.15e' mutant is detected by these cases",
-    "a file is modelled as a list of lines of tokens (word | integer text | number text). Two import models are tied to pyttb on "
-    "every real file: the token-sequence model (Model/C16IO.v, line breaks ignored) and the line-sensitive model "
-    "(Model/C16Lines.v: readline() for header / sparse entry lines, np.fromfile for values, which skips line breaks)",
+    "coverage.explanation); the seeded '%.15e' mutant is detected by these cases. C16_roundtrip_any_format needs no hypothesis",
+    "a file is modelled at three levels, each tied to pyttb on real files: characters (Model/C16Text.v: blank / CR / LF / "
+    "white-space-free piece; readline().strip().split(' ') and np.fromfile's skipping as one pass), lines of tokens read line-"
+    "sensitively (Model/C16Lines.v: readline() for header / sparse entry lines, np.fromfile for values), and the plain token "
+    "sequence (Model/C16IO.v); C16_tokenise and the line-level theorems connect them",
     "an integer text at a value position denotes the double float(text) (harness: exact bit pattern for |z| < 2^53)",
+    "sparse tensors with modes too long for unary numbers are checked against the Z-subscript model (Model/C16Big.v), proved "
+    "equal to the nat object model through Z.of_nat on every token stream (C16_long_import_bridge / C16_long_export_bridge)",
 ]
 _STATS = {"doubles": 0, "files": 0, "text_mismatch": 0, "badfiles": 0, "badfiles_accepted": 0}
 EXPLANATION = ""
@@ -208,10 +221,138 @@ def gen_cases(rng, tier):
             a = {"m": m, "n": n, "rows": [vals(n) for _ in range(m)], "layout": "C"}
         a["fmt_data"], a["fmt_weights"] = fd, fw
         cases.append(Case(kind, a, True))
+    cases += gen_history_cases(rng, big)
+    # zero sizes: objects without any entry are written with an empty value line and must come back with their shape
+    for shp in [(0,), (0, 3), (2, 0), (2, 0, 3), (0, 0), (1, 0, 1, 2)]:
+        cases.append(Case("tensor", {"shape": list(shp), "bits": []}, False))
+    for m, n in [(0, 3), (3, 0), (0, 0), (0, 1)]:
+        cases.append(Case("matrix", {"m": m, "n": n, "rows": [[] for _ in range(m)], "layout": rng.choice(["C", "F"])}, False))
+    for shp in [(0,), (2, 0, 2), (0, 1, 0)]:
+        cases.append(Case("ndarray", {"shape": list(shp), "cbits": [], "layout": "C"}, False))
+    for shp in [(0, 2), (2, 0, 3), (0,), (3, 0)]:
+        R = rng.randint(1, 3)
+        cases.append(Case("ktensor", {"shape": list(shp), "weights": rand_vals(rng, R),
+                                      "factors": [[rand_vals(rng, R) for _ in range(d)] for d in shp]}, True))
     cases += gen_badfiles(rng, big)
+    cases += gen_wsfiles(rng, big)
     for k, vc in enumerate(volume):
         cases.insert((k * len(cases)) // len(volume), vc)
     return cases
+
+
+# ---------------------------------------------------------------- memory layouts, multi-step histories, stored zeros
+T_HIST = ["ctor_C", "ctor_nocopy", "assign_C", "assign_strided", "assign_negstride", "permute_back"]
+K_HIST = ["assign_C", "assign_C_some", "assign_strided", "normalize_all", "normalize_k", "normalize_sort", "redistribute",
+          "weights_strided", "ctor_nocopy", "arrange"]
+S_HIST = ["ctor_zeros", "ctor_zeros", "edit_vals", "assign_layout", "ctor_nocopy", "minus_self", "scaled", "all_zero"]
+
+
+def _ordinary(rng, n, zero_ok=False):
+    out = []
+    for _ in range(n):
+        if zero_ok and rng.random() < 0.15:
+            out.append(rng.choice([0, SIGN]))
+        else:
+            out.append(f2b(rng.choice([1, -1]) * (0.1 + rng.random()) * 2.0 ** rng.randint(-24, 24)))
+    return out
+
+
+def gen_history_cases(rng, big):
+    """objects whose arrays are NOT in the layout pyttb's constructors produce (C-ordered, strided, negative strides:
+    assigned to the public attributes or left behind by normalize / redistribute / permute), objects that come out of
+    other operations, and sparse tensors with explicitly stored +0.0 / -0.0 (plain constructor, in-place edit of vals)"""
+    out = []
+    # dense tensors: at least two modes of size >= 2 so that the layouts differ
+    fixed = [(2, 3), (3, 2, 2), (2, 3, 4), (2, 2, 3, 2), (1, 3, 2), (4,), (2, 1, 2, 3, 2)]
+    for k in range(40 if big else 14):
+        shp = list(fixed[k]) if k < len(fixed) else tgen.rand_shape(rng, maxn=5, maxcells=(200 if big else 60), maxdim=5)
+        bits = rand_vals(rng, math.prod(shp))
+        a = {"shape": shp, "bits": bits, "hist": T_HIST[k % len(T_HIST)]}
+        if a["hist"] == "permute_back":
+            q = list(range(len(shp)))
+            rng.shuffle(q)
+            a["perm"] = q
+        out.append(Case("tensor", a, len(set(bits)) > 1))
+    # Kruskal tensors: rank >= 2 and mode sizes >= 2 mostly (both layouts coincide otherwise), some rank 1 / singleton
+    for k in range(70 if big else 24):
+        shp = tgen.rand_shape(rng, maxn=4, maxcells=10 ** 9, maxdim=5)
+        R = rng.randint(2, 4)
+        if k % 6 == 5:
+            R = 1
+        elif k % 6 != 4:
+            shp = [max(d, 2) for d in shp]
+        h = K_HIST[k % len(K_HIST)]
+        value_changing = h in ("normalize_all", "normalize_k", "normalize_sort", "redistribute", "arrange")
+        vals = (lambda n: _ordinary(rng, n)) if value_changing else (lambda n: rand_vals(rng, n))
+        a = {"shape": shp, "weights": vals(R), "factors": [[vals(R) for _ in range(d)] for d in shp], "hist": h,
+             "mode": rng.randrange(len(shp)), "which": [rng.random() < 0.5 for _ in shp]}
+        if not any(a["which"]):
+            a["which"][rng.randrange(len(shp))] = True
+        out.append(Case("ktensor", a, True))
+    # sparse tensors
+    for k in range(70 if big else 24):
+        shp = tgen.rand_shape(rng, maxn=4, maxcells=(200 if big else 60), maxdim=5)
+        n = math.prod(shp)
+        h = S_HIST[k % len(S_HIST)]
+        nz = rng.choice([1, min(n, 2), min(n, 3), rng.randint(1, n), rng.randint(1, n)])
+        subs = rng.sample(tgen.all_subs(shp), nz)
+        order = rng.choice(["sorted", "reversed", "random"])
+        if order == "sorted":
+            subs.sort(key=lambda s_: s_[::-1])
+        elif order == "reversed":
+            subs.sort(key=lambda s_: s_[::-1], reverse=True)
+        if h == "ctor_zeros":
+            bits = _ordinary(rng, nz, zero_ok=True) if rng.random() < 0.5 else [rng.choice([0, SIGN]) if rng.random() < 0.4 else b
+                                                                               for b in rand_vals(rng, nz, nonzero=True)]
+            if not any((b & ~SIGN) == 0 for b in bits):
+                bits[rng.randrange(nz)] = rng.choice([0, SIGN])
+        elif h == "all_zero":
+            bits = [rng.choice([0, SIGN]) for _ in range(nz)]
+        elif h in ("minus_self", "scaled"):
+            bits = _ordinary(rng, nz)
+        else:
+            bits = rand_vals(rng, nz, nonzero=True)
+        a = {"shape": shp, "subs": subs, "bits": bits, "base": rng.choice([1, 1, 1, 0, 2, -3]), "hist": h}
+        if h == "edit_vals":
+            a["edits"] = [[j, rng.choice([0, SIGN])] for j in sorted(rng.sample(range(nz), rng.randint(1, nz)))]
+        out.append(Case("sptensor", a, True))
+    # sparse tensors with very long modes (only the stored entries take memory): subscripts are np.int64 texts and must
+    # travel exactly (not through a double); mode sizes around and beyond 2^53, subscripts next to the ends of the mode
+    LONG = [10 ** 9, 2 ** 53, 2 ** 53 + 2, 2 ** 54 + 6, 2 ** 60, 2 ** 62 + 10, 2 ** 63 - 1, 3 * 10 ** 18 + 7]
+    for k in range(36 if big else 12):
+        N = rng.randint(1, 3)
+        shp = [rng.choice([1, 2, 3, 5]) for _ in range(N)]
+        for j in rng.sample(range(N), rng.randint(1, N)):
+            shp[j] = rng.choice(LONG)
+        nz = rng.randint(1, 5)
+        subs = []
+        while len(subs) < nz:
+            row = []
+            for d in shp:
+                if d <= 5:
+                    row.append(rng.randrange(d))
+                else:
+                    x = rng.choice([d - 1, d - 2, d - 3, d - rng.randrange(1, 2000), 2 ** 53 + rng.randrange(-4, 9), d // 2 + 1,
+                                    d // 3, rng.randrange(d), rng.randrange(10), (d - 1) | 1, ((d - 1) | 3) - 2])
+                    row.append(min(max(x, 0), d - 1))
+            if row not in subs:
+                subs.append(row)
+        top = max(max(r) for r in subs)            # the subscript texts of the file (subscript + base) must stay inside int64
+        base = rng.choice([b for b in [1, 1, 0, 2, -3] if top + b < 2 ** 63])
+        out.append(Case("sptensor_big", {"shape": shp, "subs": subs, "bits": rand_vals(rng, nz), "base": base}, True))
+    # sparse tensors without a stored entry that ARISE from a computation are covered by minus_self; matrices / arrays:
+    for k in range(40 if big else 12):
+        shp = tgen.rand_shape(rng, maxn=4, maxcells=48, maxdim=5)
+        if len(shp) == 2:
+            shp = shp + [rng.randint(2, 3)]
+        cbits = rand_vals(rng, math.prod(shp))
+        out.append(Case("ndarray", {"shape": shp, "cbits": cbits, "layout": ["strided", "transposed_view", "negstride", "F"][k % 4]},
+                        len(set(cbits)) > 1))
+    for k in range(24 if big else 8):
+        m, n = rng.randint(2, 5), rng.randint(2, 5)
+        rows = [rand_vals(rng, n) for _ in range(m)]
+        out.append(Case("matrix", {"m": m, "n": n, "rows": rows, "layout": ["negstride", "slice3d", "F", "transposed_view"][k % 4]}, True))
+    return out
 
 
 # ---------------------------------------------------------------- malformed files (import side, line-sensitive)
@@ -256,7 +397,7 @@ MUTATIONS = ["none", "type_word", "truncate", "header_extra", "sizes_extra", "si
              "line_drop_token", "one_subscript", "base_mismatch_low", "base_mismatch_high", "sub_out_of_range", "reflow_join",
              "reflow_split", "blank_line", "word_value", "float_subscript", "trailing_junk", "nnz_more", "nnz_less", "nnz_negative",
              "drop_matrix_line", "matrix_line_other", "weights_extra", "rank_mismatch", "factor_cols", "factor_1d", "neg_size",
-             "empty_file", "first_line_number"]
+             "empty_file", "first_line_number", "zero_size", "zero_size_consistent"]
 
 
 def gen_badfiles(rng, big):
@@ -347,12 +488,109 @@ def gen_badfiles(rng, big):
             if kind == "sptensor" and not info["nz"]:
                 continue            # ttb.sptensor(empty subs, empty vals, (-1,)) is accepted by the constructor (C19 territory)
             L[2] = ["-" + L[2][0]] + L[2][1:]
+        elif mut == "zero_size":
+            # one header size becomes 0, the body stays (values / entries now in excess)
+            j = rng.randrange(len(L[2]))
+            L[2] = L[2][:j] + ["0"] + L[2][j + 1:]
+        elif mut == "zero_size_consistent":
+            # a well-formed file of an object with a zero size (sptensor: accepted by import although the constructor
+            # refuses such a shape when called directly)
+            shp0 = list(info["shape"])
+            shp0[rng.randrange(len(shp0))] = 0
+            if kind in ("tensor", "matrix"):
+                L = [[kind], [str(len(shp0))], [str(d) for d in shp0], []]
+            elif kind == "sptensor":
+                L = [[kind], [str(len(shp0))], [str(d) for d in shp0], ["0"]]
+            else:
+                R = int(L[3][0])
+                L = L[:5]
+                L[2] = [str(d) for d in shp0]
+                for d in shp0:
+                    L += [["matrix"], ["2"], [str(d), str(R)]] + [[_fv(rng) for _ in range(R)] for _ in range(d)]
         elif mut == "empty_file":
             L = []
         elif mut == "first_line_number":
             L[0] = ["3"]
         out.append(Case("badfile", {"lines": L, "base": base, "mutation": mut, "kind": kind}, True))
     return out
+
+
+# ---------------------------------------------------------------- white space (character-level model, Model/C16Text.v)
+WS_KINDS = ["styled", "styled", "crlf", "double_blank", "double_blank_values", "ws_only_line", "no_final_newline", "blank_lines_end",
+            "trailing_only", "leading_only"]
+
+
+def gen_wsfiles(rng, big):
+    """valid files (independent pure-Python writer) re-written with other white space: blanks before / after the tokens of
+    a line, CR LF line ends (all lines or some), runs of blanks between tokens, white-space-only lines, no final line break"""
+    out = []
+    for k in range(len(WS_KINDS) * (12 if big else 4)):
+        ws = WS_KINDS[k % len(WS_KINDS)]
+        kind, L, info = _good_file(rng)
+        body0 = {"tensor": 3, "matrix": 3, "sptensor": 4, "ktensor": 5}[kind]
+        if kind in ("tensor", "matrix") and rng.random() < 0.5:      # several values on a line
+            vals = [t for ln in L[3:] for t in ln]
+            L = L[:3]
+            while vals:
+                n = rng.randint(1, 3)
+                L.append(vals[:n])
+                vals = vals[n:]
+        crlf_all = ws == "crlf" or (ws == "styled" and rng.random() < 0.3)
+        seps = [[" "] * (len(ln) - 1) for ln in L]
+        if ws in ("double_blank", "double_blank_values"):
+            cands = [j for j in range(len(L)) if len(L[j]) >= 2 and ((j >= body0 and kind != "sptensor") == (ws == "double_blank_values"))]
+            if not cands:
+                continue
+            j = rng.choice(cands)
+            seps[j][rng.randrange(len(seps[j]))] = " " * rng.randint(2, 3)
+        text = ""
+        for j, ln in enumerate(L):
+            lead = rng.choice([0, 0, 1, 3]) if ws in ("styled", "leading_only") else 0
+            trail = rng.choice([0, 0, 1, 2]) if ws in ("styled", "trailing_only", "crlf") else 0
+            body = "".join(t + (seps[j][i] if i < len(seps[j]) else "") for i, t in enumerate(ln))
+            eol = "\r\n" if crlf_all or (ws == "styled" and rng.random() < 0.2) else "\n"
+            text += " " * lead + body + " " * trail + eol
+        if ws == "ws_only_line":
+            parts = text.split("\n")
+            parts.insert(rng.randint(1, len(parts) - 1), " " * rng.randint(1, 3))
+            text = "\n".join(parts)
+        elif ws == "no_final_newline":
+            text = text[:-1]
+        elif ws == "blank_lines_end":
+            text += rng.choice(["\n", " \n\n", "\r\n"])
+        out.append(Case("wsfile", {"text": text, "base": 1, "ws": ws, "kind": kind}, True))
+    return out
+
+
+def atoms_of(text):
+    """the characters of a file as atoms: ' ' / CR / LF one by one, and the maximal pieces free of white space"""
+    out, piece = [], ""
+    for ch in text:
+        if ch in " \r\n":
+            if piece:
+                out.append(["t"] + _classify(piece))
+                piece = ""
+            out.append([{" ": "b", "\r": "r", "\n": "n"}[ch]])
+        else:
+            assert not ch.isspace(), "white space outside the model"
+            piece += ch
+    if piece:
+        out.append(["t"] + _classify(piece))
+    return out
+
+
+def _classify(t):
+    if _INT.match(t):
+        return ["i", int(t)]
+    if _NUM.match(t):
+        return ["n", f2b(float(t))]
+    return ["w", t]
+
+
+def gatoms(atoms):
+    def ga(a):
+        return {"b": "ABlank", "r": "ACR", "n": "ALF"}[a[0]] if a[0] != "t" else f"(ATok {gtok(a[1:])})"
+    return "(@nil zatom)" if not atoms else "[" + "; ".join(ga(a) for a in atoms) + "]"
 
 
 # ---------------------------------------------------------------- running pyttb through real files
@@ -402,12 +640,18 @@ def run_impl(c):
     try:
         path = os.path.join(d, "obj.tns")
         base = 1
-        if c.op == "badfile":
+        if c.op in ("badfile", "wsfile"):
             import warnings
-            with open(path, "w") as fh:
-                fh.write("".join(" ".join(ln) + "\n" for ln in a["lines"]))
-            lines = tokenize(open(path).read())
-            o = {"lines": [[t[:2] for t in ln] for ln in lines]}
+            if c.op == "wsfile":
+                with open(path, "w", newline="") as fh:
+                    fh.write(a["text"])
+                with open(path, "r", newline="") as fh:
+                    o = {"atoms": atoms_of(fh.read())}
+            else:
+                with open(path, "w") as fh:
+                    fh.write("".join(" ".join(ln) + "\n" for ln in a["lines"]))
+                lines = tokenize(open(path).read())
+                o = {"lines": [[t[:2] for t in ln] for ln in lines]}
             _STATS["badfiles"] += 1
             _explain()
             try:
@@ -422,22 +666,22 @@ def run_impl(c):
             _explain()
             o.update(_describe(np, ttb, got))
             return o
+        pre = None
         if c.op == "tensor":
-            obj = ttb.tensor(_arr(np, a["bits"], tuple(a["shape"]), "F").copy(order="F"), tuple(a["shape"]))
+            obj = _build_tensor(np, ttb, a)
             nd = len(a["bits"])
         elif c.op == "sptensor":
             base = a["base"]
-            nz = len(a["subs"])
-            if nz:
-                obj = ttb.sptensor(np.array(a["subs"], dtype=int).reshape((nz, len(a["shape"]))),
-                                   _arr(np, a["bits"], (nz, 1)).copy(), tuple(a["shape"]))
-            else:
-                obj = ttb.sptensor(shape=tuple(a["shape"]))
-            nd = nz
+            obj = _build_sptensor(np, ttb, a)
+            nd = len(a["subs"])
+        elif c.op == "sptensor_big":
+            base = a["base"]
+            nd = len(a["subs"])
+            obj = ttb.sptensor(np.array(a["subs"], dtype=np.int64).reshape((nd, len(a["shape"]))),
+                               _arr(np, a["bits"], (nd, 1)).copy(), tuple(a["shape"]))
         elif c.op == "ktensor":
             R = len(a["weights"])
-            facs = [_arr(np, [b for row in f for b in row], (len(f), R)).copy() for f in a["factors"]]
-            obj = ttb.ktensor(facs, _arr(np, a["weights"]).copy())
+            obj = _build_ktensor(np, ttb, a)
             nd = R + sum(len(f) * R for f in a["factors"])
         elif c.op == "matrix":
             m, n = a["m"], a["n"]
@@ -450,14 +694,25 @@ def run_impl(c):
                 M = big[::2, 1::3]
             elif a["layout"] == "transposed_view":
                 M = np.ascontiguousarray(M.T).T
+            elif a["layout"] == "negstride":
+                M = np.ascontiguousarray(M[::-1, ::-1])[::-1, ::-1]
+            elif a["layout"] == "slice3d":
+                A3 = np.zeros((m, 3, n), order=("F" if m % 2 else "C"))
+                A3[:, 1, :] = M
+                M = A3[:, 1, :]
             obj = M
             nd = m * n
         elif c.op == "ndarray":
             M = _arr(np, a["cbits"], tuple(a["shape"]), "C").copy()
-            obj = np.asfortranarray(M) if a["layout"] == "F" else M
+            obj = _relayout(np, M, a["layout"])
             nd = len(a["cbits"])
         else:
             raise ValueError(c.op)
+        if a.get("hist"):
+            # the object as it is just before export_data, read entry by entry with plain indexing (no ravel / reshape)
+            pre = _pre(np, ttb, obj)
+            if c.op == "sptensor":
+                nd = len(pre["subs"])
         if a.get("fmt_data") or a.get("fmt_weights"):
             ttb.export_data(obj, path, fmt_data=a.get("fmt_data"), fmt_weights=a.get("fmt_weights"))
         else:
@@ -489,11 +744,122 @@ def run_impl(c):
         _explain()
         o = {"lines": [[t[:2] for t in ln] for ln in lines], "lines1": None if base == 1 else [[t[:2] for t in ln] for ln in lines1], "text_ok": text_ok}
         o.update(_describe(np, ttb, got))
+        if pre is not None:
+            o["pre"] = pre
+            o["post"] = _pre(np, ttb, obj)       # export_data must not change the object it writes
         return o
     except Exception as ex:
         return {"exc": type(ex).__name__, "msg": str(ex)[:300]}
     finally:
         shutil.rmtree(d, ignore_errors=True)
+
+
+def _relayout(np, M, layout):
+    """the same logical array in another memory layout"""
+    if layout == "F":
+        return np.asfortranarray(M)
+    if layout == "strided":
+        big = np.zeros([2 * d + 1 for d in M.shape], order="F")
+        view = big[tuple(slice(1, None, 2) for _ in M.shape)]
+        view[...] = M
+        return view
+    if layout == "transposed_view":
+        return np.ascontiguousarray(M.transpose()).transpose()
+    if layout == "negstride":
+        rev = tuple(slice(None, None, -1) for _ in M.shape)
+        return np.ascontiguousarray(M[rev])[rev]
+    return np.ascontiguousarray(M)
+
+
+def _build_tensor(np, ttb, a):
+    shape = tuple(a["shape"])
+    X = _arr(np, a["bits"], shape, "F")
+    h = a.get("hist")
+    if not h:
+        return ttb.tensor(X.copy(order="F"), shape)
+    if h == "ctor_C":
+        return ttb.tensor(np.ascontiguousarray(X))
+    if h == "ctor_nocopy":
+        return ttb.tensor(np.ascontiguousarray(X), copy=False)
+    if h == "permute_back":
+        q = a["perm"]
+        T0 = ttb.tensor(np.transpose(X, q).copy())
+        return T0.permute(np.argsort(q))
+    obj = ttb.tensor(X.copy(order="F"), shape)
+    obj.data = _relayout(np, X, {"assign_C": "C", "assign_strided": "strided", "assign_negstride": "negstride"}[h])
+    return obj
+
+
+def _build_sptensor(np, ttb, a):
+    shape = tuple(a["shape"])
+    nz = len(a["subs"])
+    h = a.get("hist")
+    if not nz:
+        return ttb.sptensor(shape=shape)
+    subs = np.array(a["subs"], dtype=int).reshape((nz, len(shape)))
+    vals = _arr(np, a["bits"], (nz, 1)).copy()
+    if h == "ctor_nocopy":
+        return ttb.sptensor(np.asfortranarray(subs), vals, shape, copy=False)
+    S = ttb.sptensor(subs, vals, shape)
+    if h == "edit_vals":
+        for j, b in a["edits"]:
+            S.vals[j, 0] = b2f(b)
+    elif h == "assign_layout":
+        S.subs = _relayout(np, S.subs, "F" if nz % 2 else "strided")
+        S.vals = _relayout(np, S.vals, "strided")
+    elif h == "minus_self":
+        S = S - S
+    elif h == "scaled":
+        S = S * 2.0
+    return S
+
+
+def _build_ktensor(np, ttb, a):
+    R = len(a["weights"])
+    facs = [_arr(np, [b for row in f for b in row], (len(f), R)).copy() for f in a["factors"]]
+    w = _arr(np, a["weights"]).copy()
+    h = a.get("hist")
+    if h == "ctor_nocopy":
+        return ttb.ktensor(facs, w, copy=False)
+    K = ttb.ktensor(facs, w)
+    if not h:
+        return K
+    if h in ("assign_C", "assign_C_some", "assign_strided"):
+        for n in range(len(facs)):
+            if h == "assign_C" or a["which"][n]:
+                K.factor_matrices[n] = _relayout(np, facs[n], "strided" if h == "assign_strided" else "C")
+    elif h == "normalize_all":
+        K.normalize(weight_factor="all")
+    elif h == "normalize_k":
+        K.normalize(weight_factor=a["mode"])
+    elif h == "normalize_sort":
+        K.normalize(sort=True)
+        K.normalize(weight_factor=a["mode"])
+    elif h == "redistribute":
+        K.redistribute(a["mode"])
+    elif h == "arrange":
+        K.arrange()
+    elif h == "weights_strided":
+        K.weights = _relayout(np, w, "strided")
+        K.factor_matrices[a["mode"]] = _relayout(np, facs[a["mode"]], "negstride")
+    return K
+
+
+def _pre(np, ttb, obj):
+    if isinstance(obj, ttb.tensor):
+        shp = [int(x) for x in obj.shape]
+        return {"shape": shp, "data_shape": [int(x) for x in obj.data.shape],
+                "bits": [f2b(float(obj.data[tuple(s_)])) for s_ in tgen.all_subs(shp)]}
+    if isinstance(obj, ttb.sptensor):
+        nz = int(obj.subs.shape[0]) if obj.subs.size else 0
+        N = len(obj.shape)
+        return {"shape": [int(x) for x in obj.shape], "subs": [[int(obj.subs[k, j]) for j in range(N)] for k in range(nz)],
+                "bits": [f2b(float(obj.vals[k, 0])) for k in range(nz)]}
+    if isinstance(obj, ttb.ktensor):
+        R = int(obj.weights.shape[0])
+        return {"weights": [f2b(float(obj.weights[r])) for r in range(R)],
+                "factors": [[[f2b(float(f[i, r])) for r in range(R)] for i in range(f.shape[0])] for f in obj.factor_matrices]}
+    return None
 
 
 def _describe(np, ttb, got):
@@ -562,6 +928,20 @@ def _rounded_args(c):
     return Case(c.op, a, c.nontrivial)
 
 
+def gspz(shape, subs, bits):
+    return f"(mkSpz {gzl(shape)} {gzm(subs)} {gzl(bits)})"
+
+
+def _ref_case(c, o):
+    """the object export_data was given: the generated one, or (after a history) the one observed just before export"""
+    pre = (o or {}).get("pre")
+    if not pre:
+        return c
+    a = dict(c.args)
+    a.update(pre)
+    return Case(c.op, a, c.nontrivial)
+
+
 def gobj_in(c):
     a = c.args
     if c.op == "tensor":
@@ -603,6 +983,12 @@ def gobj_out(o):
 
 
 def coq_check(c, o):
+    if c.op == "wsfile":
+        b = gz(c.args["base"])
+        if "exc" in o:
+            return f"c16_text_ok {b} {gatoms(o['atoms'])} None"
+        got = gobj_out(o)
+        return "false" if got is None else f"c16_text_ok {b} {gatoms(o['atoms'])} (Some {got})"
     if c.op == "badfile":
         b = gz(c.args["base"])
         if "exc" in o:
@@ -613,6 +999,15 @@ def coq_check(c, o):
         return f"c16_lines_ok {b} {glines(o['lines'])} (Some {got})"
     if "exc" in o:
         return "false"
+    if c.op == "sptensor_big":
+        if o["type"] != "sptensor" or isinstance(o["bits"], dict) or o["nnz"] != len(o["subs"]) or not o["text_ok"]:
+            return "false"
+        a = c.args
+        e = (f"c16_big_case {gz(a['base'])} {gspz(a['shape'], a['subs'], a['bits'])} {glines(o['lines'])} "
+             f"{gspz(o['shape'], o['subs'], o['bits'])}")
+        if o.get("lines1") is not None:
+            e += f" && lines_eqb (zexport_spz 1%Z {gspz(a['shape'], a['subs'], a['bits'])}) {glines(o['lines1'])}"
+        return e
     if c.args.get("fmt_data") or c.args.get("fmt_weights"):
         # non-default formats: same layout, values rounded by the format (what is read back is the rounded object)
         got = gobj_out(o)
@@ -622,6 +1017,12 @@ def coq_check(c, o):
     got = gobj_out(o)
     if got is None or not o["text_ok"]:
         return "false"
+    if o.get("pre") is not None:
+        if o["pre"] != o["post"]:
+            return "false"       # export_data changed the object it was given
+        if any(((b >> 52) & 0x7FF) == 0x7FF for b in _all_bits(o["pre"])):
+            return None          # the history overflowed: not a finite object
+        c = _ref_case(c, o)
     base = c.args.get("base", 1)
     e = f"c16_case {gz(base)} {gobj_in(c)} {glines(o['lines'])} {got}"
     if o.get("lines1") is not None:      # the file pyttb itself wrote (base 1), before the harness re-based it
@@ -629,22 +1030,37 @@ def coq_check(c, o):
     return e
 
 
+def _all_bits(pre):
+    out = list(pre.get("bits") or []) + list(pre.get("weights") or [])
+    for f in pre.get("factors") or []:
+        for row in f:
+            out += row
+    return out
+
+
 # ---------------------------------------------------------------- brute-force oracle (pure Python)
 def oracle(c, o):
     a = c.args
-    if c.op == "badfile":
+    if c.op in ("badfile", "wsfile"):
         return None          # the property does not speak about malformed files; the model's verdict is the reference
     if a.get("fmt_data") or a.get("fmt_weights"):
         a = _rounded_args(c).args
     if "exc" in o:
         return f"export/import of an admissible object raised {o['exc']}: {o.get('msg')}"
-    want_type = {"tensor": "tensor", "sptensor": "sptensor", "ktensor": "ktensor", "matrix": "ndarray", "ndarray": "ndarray"}[c.op]
+    if o.get("pre") is not None:
+        if o["pre"] != o["post"]:
+            return "export_data changed the object it was given"
+        a = _ref_case(c, o).args
+    if "exc" in o:
+        return f"export/import of an admissible object raised {o['exc']}: {o.get('msg')}"
+    want_type = {"tensor": "tensor", "sptensor": "sptensor", "sptensor_big": "sptensor", "ktensor": "ktensor", "matrix": "ndarray",
+                 "ndarray": "ndarray"}[c.op]
     if o["type"] != want_type:
         return f"type changed: {want_type} -> {o['type']}"
     if c.op == "tensor":
         if o["shape"] != a["shape"] or o["bits"] != a["bits"]:
             return "dense tensor not reproduced bit-for-bit"
-    elif c.op == "sptensor":
+    elif c.op in ("sptensor", "sptensor_big"):
         if o["shape"] != a["shape"] or o["subs"] != a["subs"] or o["bits"] != a["bits"]:
             return "sparse tensor (subscripts, their order, values) not reproduced"
         if a["base"] == 1:
@@ -685,6 +1101,9 @@ TRIGGERS = {
     "negative_subscript_after_base": _neg_sub,
     # C16-N1: a Kruskal tensor without components is written with an empty weights line that import never consumes
     "rank_zero": lambda c: c.op == "ktensor" and len(c.args["weights"]) == 0,
+    # C16-N2: objects of order 0 (default-constructed empty tensor / sptensor / ktensor, 0-d array); no case is generated
+    # (the object model starts at order 1), the witness replays it
+    "order_zero": lambda c: c.op in ("tensor", "sptensor", "ktensor", "ndarray") and c.args.get("shape") == [],
 }
 
 
@@ -722,4 +1141,26 @@ def _w_rank0():
         shutil.rmtree(d, ignore_errors=True)
 
 
-WITNESSES = {"C19-N14": _w_negsub, "C16-N1": _w_rank0}
+def _w_order0():
+    import numpy as np
+    import pyttb as ttb
+    d = tempfile.mkdtemp(prefix="c16_")
+    try:
+        path = os.path.join(d, "w.tns")
+        bad = []
+        for name, mk in (("tensor()", ttb.tensor), ("sptensor()", ttb.sptensor), ("ktensor()", ttb.ktensor),
+                         ("np.array(3.0)", lambda: np.array(3.0))):
+            obj = mk()
+            ttb.export_data(obj, path)
+            try:
+                R = ttb.import_data(path)
+                if type(R) is not type(obj) or tuple(R.shape) != tuple(obj.shape):
+                    bad.append(name)
+            except Exception as ex:
+                bad.append(f"{name}: {type(ex).__name__}")
+        return ("export then import of order-0 objects fails: " + ", ".join(bad)) if bad else None
+    finally:
+        shutil.rmtree(d, ignore_errors=True)
+
+
+WITNESSES = {"C19-N14": _w_negsub, "C16-N1": _w_rank0, "C16-N2": _w_order0}
